@@ -14,6 +14,8 @@ def c17(F, R, tier):
 
 
 from . import e2_protocol
+from . import spec as _spec
+from .e_window import no_unknowns as _no_unknowns
 
 
 @register('C01', 'proof',
@@ -38,6 +40,7 @@ from . import e_c14
           'are symbolic in every input and child output, so the verdict holds for all children, inputs and steps.')
 def c14(F, R, tier):
     e_c14.run_c14(F, R)
+    _no_unknowns(F, R, ['Add', 'Subtract', 'Multiply', 'Divide', 'GTE', 'LTE', 'Tanh', 'Echo', 'Constant'])
 
 
 from . import e3_bounds
@@ -87,6 +90,7 @@ PARTIAL = ('Static analysis of the structural clauses only (stated in the eviden
           'post-operation count; (PC) BinaryEntropy counts the same predicate on insert and evict; Roc base register. ' + PARTIAL)
 def c02(F, R, tier):
     e_window.run_c02(F, R)
+    _no_unknowns(F, R, _spec.WINDOW_VIEWS)
 
 
 @register('C03', 'other',
@@ -95,6 +99,7 @@ def c02(F, R, tier):
           'extremum, a counted predicate, a Welford aggregate or one of the two allowed hold registers (census). ' + PARTIAL)
 def c03(F, R, tier):
     e_window.run_c03(F, R)
+    _no_unknowns(F, R, _spec.FINITE_MEMORY)
 
 
 @register('C05', 'other',
@@ -103,6 +108,7 @@ def c03(F, R, tier):
           'advanced to the evicted value), state never depends on the raw argument, ratio guards (100 when L=0; hold when G+L=0). ' + PARTIAL)
 def c05(F, R, tier):
     e_window.run_c05(F, R)
+    _no_unknowns(F, R, _spec.WINDOW_VIEWS_C05)
 
 
 from . import e_typed_props
@@ -126,6 +132,7 @@ def c12(F, R, tier):
           'enumerated N. Level "other" rather than "proof" because the DC clause has a known finding (CyberCycle N = 4, 5) and is enumerated, not symbolic.')
 def c10(F, R, tier):
     e_typed_props.run_c10(F, R)
+    _no_unknowns(F, R, _spec.LINEAR_VIEWS)
     from . import e_lti_props
     e_lti_props.run_c10_dc(F, R, tier)
     e_lti_props.dc_first_output(F, R, tier)
@@ -141,6 +148,7 @@ def c10(F, R, tier):
           'constant-reproduction, monotonicity and affine clauses follow in real arithmetic. ' + PARTIAL)
 def c04(F, R, tier):
     e_typed_props.run_c04(F, R, tier)
+    _no_unknowns(F, R, ['Sma', 'Ema', 'Alma'])
 
 
 from . import e_ready
@@ -168,6 +176,7 @@ from . import e_rolling
           'Some(ln(x2/x1)) from any prior state. ' + PARTIAL)
 def c13(F, R, tier):
     e_rolling.run_c13(F, R)
+    _no_unknowns(F, R, ['WelfordRolling', 'Drawdown', 'LnReturn'])
 
 
 from . import e_lti_props
@@ -181,6 +190,7 @@ from . import e_lti_props
           'self-normalised X/sqrt(a·X²+b·prev) with leak b < 1; the Fisher recursion has feedback 0.5 with the clamp dominating the log. ' + PARTIAL)
 def c09(F, R, tier):
     e_lti_props.run_c09(F, R, tier)
+    _no_unknowns(F, R, _spec.RECURSIVE_VIEWS)
 
 
 @register('C11', 'other',
@@ -190,6 +200,7 @@ def c09(F, R, tier):
           '1−alpha; Fisher recursion constants; self-normalised flex outputs; Fisher window extrema are rescanned. ' + PARTIAL)
 def c11(F, R, tier):
     e_lti_props.run_c11(F, R, tier)
+    _no_unknowns(F, R, ['SuperSmoother', 'RoofingFilter', 'LaguerreFilter', 'LaguerreRSI', 'CyberCycle', 'TrendFlex', 'ReFlex', 'EhlersFisherTransform', 'PolarizedFractalEfficiency'])
 
 
 from . import e_trend
@@ -202,6 +213,7 @@ from . import e_trend
           'guard; CTI accumulates Σx, Σt, Σx², Σxt, Σt² over the whole window, reports Pearson\'s r of them under both variance guards > 0. ' + PARTIAL)
 def c06(F, R, tier):
     e_trend.run_c06(F, R, tier)
+    _no_unknowns(F, R, ['CorrelationTrendIndicator', 'NoiseEliminationTechnology', 'CenterOfGravity'])
 
 
 from . import e_range
